@@ -54,3 +54,8 @@ package planar
 //@   ensures len(r) >= 1 ==> same(a, ite(shoe(r, len(r) - 2) == 0.0, 0.0, shoe(r, len(r) - 2) / 2.0))
 //@   ensures len(r) >= 1 && shoe(r, len(r) - 2) == 0.0 ==> same(c, r[0])
 //@   loop 1: invariant 1 <= i && (i <= len(r) - 1 || len(r) < 2) && same(area, shoe(r, i - 1)) && same(offsetX, r[0][0]) && same(offsetY, r[0][1])
+
+// the squared distance to a segment is a deterministic function of its three points (loop-free, no
+// state): callers may name it in their contracts
+//@ func DistanceFromSegmentSquared(a, b, point)
+//@   function
